@@ -138,12 +138,7 @@ def gen_spec(h):
 
 def regen(spec, seed):
     if spec['type'] == 'exhaustive':
-        h = G.Hist(2, spec.get('fmt', 1), name='x%d:' % spec['variant'] + ','.join(spec['word']))
-        last = [None, None]
-        for a in spec['word']:
-            G.apply_letter(h, a, last, spec['variant'])
-        h.close()
-        return h
+        return G.word_hist(spec['word'], spec['variant'], spec.get('fmt', 1))
     if spec['type'] == 'random':
         rng = C.SplitMix64(seed * 0x10001 + C.hash_str('C05')).fork('r-%d' % spec['idx'])
         return G.random_hist(rng, spec['idx'])
@@ -197,9 +192,10 @@ def evaluate(ctx, hists, impl, wd, variant, stats, tag):
         if mism:
             stats['model_disagreements'] += 1
             disagreements.append((h, mism, d))
-        if fails and not mism and headok and not any(st['misuse'] for st in h.steps):
+        theorem_applies = (variant == 'fixed') or headok
+        if fails and not mism and theorem_applies and not any(st['misuse'] for st in h.steps):
             disagreements.append((h, [dict(step=fails[0]['step'], rel='thm_C05_partial_vs_oracle',
-                                           detail='oracle fails although every wait satisfies head_ok and the model agrees: ' + fails[0]['detail'])], d))
+                                           detail='oracle fails although the proved theorem covers this history and the model agrees: ' + fails[0]['detail'])], d))
     return oracle_fails, disagreements
 
 
@@ -259,18 +255,30 @@ def run(ctx):
     hists += list(G.exhaustive(3 if thorough else 2, 0, 1))
     if thorough:
         hists += list(G.exhaustive(2, 1, 5))
-    nrand = 1500 if thorough else 220
+    else:
+        # a sample of the 3-letter words
+        r3 = ctx.rng.fork('w3')
+        seen = set()
+        while len(seen) < 500:
+            w = tuple(r3.choice(G.ALPHABET) for _ in range(3))
+            if w not in seen:
+                seen.add(w); hists.append(G.word_hist(w, 0, 1))
+    nrand = 2500 if thorough else 400
     for i in range(nrand):
         hists.append(G.random_hist(ctx.rng.fork('r-%d' % i), i))
     of, dis = evaluate(ctx, hists, impl, wd, variant or 'head', stats, 'a')
-    # failing-input search: all words of <= 4 letters (thorough: always; quick: when a proof or the
-    # correspondence is broken and no failing input is known yet, words of <= 3 letters)
+    # failing-input search: all words of <= 4 letters (thorough: always, words of exactly 4 letters
+    # without calls that the data mode rejects - such a word acts like a shorter one; quick: when a proof or
+    # the correspondence is broken and no failing input is known yet, all words of <= 3 letters)
     need_search = (not proof_ok or variant is None or dis) and not of
     if thorough or need_search:
-        ml = 4 if thorough else 3
         done = {h.name for h in hists}
-        extra = [h for h in G.exhaustive(ml, 0, 1) if h.name not in done]
-        stats['search_words_up_to'] = ml
+        if thorough:
+            extra = list(G.exhaustive(4, 0, 1, minlen=4, prune=True))
+            stats['search'] = 'all words <= 3 letters + all %d mode-accepted words of 4 letters' % len(extra)
+        else:
+            extra = [h for h in G.exhaustive(3, 0, 1) if h.name not in done]
+            stats['search'] = 'all words <= 3 letters'
         of2, dis2 = evaluate(ctx, extra, impl, wd, variant or 'head', stats, 's')
         of += of2; dis += dis2
     ctx.cov['rule'] = ('histories = directed witnesses + all words over the 19-letter alphabet %s up to the stated length '
